@@ -70,6 +70,8 @@ def run(repo, rep, tier):
 
     r5 = rep.rule('C12.R5', 'error messages of the class resolver/provider '
                   'code can be built (well-formed format strings)')
+    operation_parameters_are_used(
+        repo, rep, 'C12.R14', lambda n: 'Class' in n or 'Qualifier' in n)
     from ..guards import run_format_rule
     run_format_rule(repo, rep, r5, lambda f: f.file in (
         'pywbem_mock/_resolvermixin.py', BASE) or (
@@ -768,6 +770,49 @@ def resolve_gets_deep_copy(repo, rep):
     if r9.sites < 3:
         raise AnalysisError('C12.R9: only %d calls of _resolve_class'
                             % r9.sites)
+
+
+def operation_parameters_are_used(repo, rep, rid, select):
+    """Every parameter that an operation of the mock server's main provider
+    accepts takes part in what the operation does: it is read somewhere
+    other than in a type assertion.  EnumerateClasses that asserts and
+    documents IncludeClassOrigin but does not hand it to get_class() falls
+    back to get_class()'s default: the flag silently has no effect and the
+    class origins are stripped although they were requested, while GetClass
+    with the same flags returns them.  (An operation that is a stub - every
+    path raises - is exempt.)"""
+    from ..cfg import assertion_only, always_exits
+    r = rep.rule(rid, 'every parameter of an operation is read outside its '
+                 'type assertions')
+    mp = repo.cls(MAIN, 'MainProvider')
+    n = 0
+    for name, f in sorted(mp.methods.items()):
+        if not name[0].isupper() or not select(name):
+            continue
+        if not any(isinstance(x, ast.Return) for x in walk_no_nested(f.node)) \
+                and always_exits(f.body):
+            continue            # not implemented: only raises
+        n += 1
+        r.sites += 1
+        r.functions.add(f.fq)
+        used = set()
+        for st in f.body:
+            if assertion_only(st):
+                continue
+            for x in ast.walk(st):
+                if isinstance(x, ast.Name) and isinstance(x.ctx, ast.Load):
+                    used.add(x.id)
+        unused = [p_ for p_ in f.params if p_ != 'self' and p_ not in used]
+        r.ob(not unused, name, {'parameters': len(f.params) - 1})
+        for p_ in unused:
+            rep.finding(r, f.qualname, p_, 'parameter-ignored', MAIN,
+                        f.node.lineno,
+                        '%s accepts %s but never reads it (outside type '
+                        'assertions): the operation behaves as if the '
+                        'client had not sent it, unlike its sibling '
+                        'operations' % (name, p_))
+    if n < 2:
+        raise AnalysisError('%s: only %d operations selected' % (rid, n))
 
 
 def call_sequence(cls, fn, target, depth=0):
